@@ -37,6 +37,23 @@
    (SessionOps.Canon): an activation carries the name as spelled (nm, what
    is bound) and the module's identity (id, what is cached).
 
+   Round 3 (C10).  (a) Module directories per interpreter: FSI(i) is the
+   file system interpreter i reads (AltFS: the interpreters that have a
+   directory of their own, same module names, other contents); where a module
+   comes from is part of what separates interpreters.  (b) Interpreters made
+   while others are in use: the command `new` (LateBorn: the interpreters that
+   do not exist at the start; an unborn interpreter has the empty scope).
+   (c) Caller environments with a parent of their own: the caller keeps a
+   chain outer <- inner <- leaf (ids outer / nested / deep; outer holds the
+   host's name ov); cal.npar = the session outer hangs under, cal.nev = inner
+   holds ev.  (d) Module loads that fail with something that is not an error
+   of the language (SessionOps.Unreadable, statements `deep`, `spin`): outcome class
+   "fail"; UnwindsFor(err) generalises the deviation UnwindOnFailure to "the
+   stack is unwound for some failures only".  (e) Defining statements that
+   fail themselves (defbad, assignbad, destrbad, classbad) define nothing and
+   leave an earlier definition of the name as it was; defclass makes an
+   object.
+
    No history variables: what a command returned is carried by the exported
    EDGE record, the repeat-check needs only the short-lived control states
    "failed"/"rerun"/"done" that collapse back into the idle state (Settle). *)
@@ -88,6 +105,32 @@ Host(kind)     == [cls |-> "host",   kind |-> kind,  arg |-> "",  v |-> 0]   \* 
 Hang           == [cls |-> "hang",   kind |-> "",    arg |-> "",  v |-> 0]   \* pinned code only
 NoOut          == [cls |-> "",       kind |-> "",    arg |-> "",  v |-> 0]
 
+(* ---- Round 3 (C10) begin: parameters.  They are definitions, not CONSTANTS,
+   so that the configurations of C11 need not name them; a configuration
+   replaces one with `Name <- Other` (e.g. AltFS <- AltFS10).               *)
+\* a failure that is not (necessarily) an error of the language: the property
+\* asks that it is a failure, the same one when repeated, and leaves nothing
+Fail(kind, arg) == [cls |-> "fail",  kind |-> kind,  arg |-> arg, v |-> 0]
+
+\* interpreters with a module directory of their own, and what it holds
+AltFS    == [i \in {} |-> FS10B]
+AltFS10  == ("i2" :> FS10B)
+FSI(i)   == IF i \in DOMAIN AltFS THEN AltFS[i] @@ BundledFS ELSE fs
+
+\* interpreters that are constructed by a command of the history
+LateBorn == {}
+Late2    == {"i2"}
+Born(i)  == "secret" \in DOMAIN sess[i]
+
+\* for which failures the module load stack is unwound (deviation); the
+\* partial one: only for the error classes of the language
+UnwindsFor(err)  == UnwindOnFailure
+UnwindsLang(err) == err.cls \in {"err", "syntax"}
+
+\* caller environments of the chain outer <- inner <- leaf
+NestIds == {"nested", "deep", "outer"}
+(* ---- Round 3 (C10) end ---------------------------------------------------- *)
+
 \* interpret with a caller environment (id = which one):
 \*   envcall  def ev = 4; x           a definition in the caller's scope, then a
 \*                                    read that must reach the session
@@ -129,6 +172,36 @@ C10Env2(i) ==
   { Cmd("def", i, "x", 1, "", ""),      Cmd("read", i, "x", 0, "", ""),
     Cmd("require", i, "", 0, "good", "plain"), Cmd("require", i, "", 0, "missing", "plain") }
   \cup C10EnvKept(i) \cup { Cmd("envcall", i, "x", 0, "child", "") }
+(* ---- Round 3 (C10) begin: alphabets ---------------------------------------
+   C10Dirs   two interpreters with different module directories (AltFS10), the
+             second made by `new` in the course of the history (Late2)
+   C10Nest   caller environments that have a parent of their own, handed to
+             two interpreters:  envcall nested  def ev = 4; x   (in inner)
+             envfail nested  def ev = 4; error 'boom'   envread nested  ov
+             envread deep  ev / ov  (in leaf: through inner / to outer)
+             envread outer  x  (in outer itself)
+   C10Fails  defining statements that fail themselves, and module loads that
+             fail in the host                                               *)
+C10Dirs(i) ==
+  { Cmd("new", i, "", 0, "", ""),       Cmd("bump", i, "good", 0, "", "") }
+  \cup { Cmd("require", i, "", 0, m, "plain") : m \in {"good", "good2", "solo"} }
+C10Nest(i) ==
+  { Cmd("def", i, "x", 1, "", ""),      Cmd("read", i, "x", 0, "", ""),
+    Cmd("envcall", i, "x", 0, "nested", ""), Cmd("envfail", i, "", 0, "nested", ""),
+    Cmd("envread", i, "ov", 0, "nested", ""), Cmd("envread", i, "ev", 0, "deep", ""),
+    Cmd("envread", i, "ov", 0, "deep", ""),   Cmd("envread", i, "x", 0, "outer", ""),
+    Cmd("envcall", i, "x", 0, "kept", ""),
+    Cmd("require", i, "", 0, "good", "plain"), Cmd("require", i, "", 0, "missing", "plain") }
+C10Fails(i) ==
+  { Cmd("def", i, "x", 1, "", ""),      Cmd("read", i, "x", 0, "", ""),
+    Cmd("defbad", i, "x", 0, "", ""),   Cmd("assignbad", i, "x", 0, "", ""),
+    Cmd("destrbad", i, "x", 0, "", ""), Cmd("defclass", i, "P", 1, "", ""),
+    Cmd("classbad", i, "P", 0, "", "") }
+  \cup { Cmd("require", i, "", 0, m, "plain") :
+           m \in {"good", "missing", "undec", "isdir", "deeprec", "wrapu", "spin", "wraps"} }
+C10FailsWide(i) == C10Fails(i) \cup { Cmd("require", i, "", 0, "wrapd", "plain") }
+(* ---- Round 3 (C10) end ---------------------------------------------------- *)
+
 C11Cmds(i) ==
   { Cmd("require", i, "", 0, m, IForms[f]) : m \in ModIds, f \in DOMAIN IForms }
   \cup { Cmd("bump", i, n, 1, "", "") : n \in UNION {{m, Alias(m), NBump(m)} : m \in ModIds} }
@@ -161,7 +234,8 @@ VStr(x) == x.k \o ":" \o x.id \o ":" \o x.n \o ":" \o ToString(x.v)
 \* future: scopes, loaded modules with their counters, stack, load counters)
 Key == [s |-> [i \in Interps |-> [n \in DOMAIN sess[i] |-> VStr(sess[i][n])]],
         m |-> [i \in Interps |-> [id \in DOMAIN mods[i] |-> mods[i][id].ctr]],
-        k |-> mstack, l |-> loads, g |-> gen, n |-> nreq, e |-> cal.ev]
+        k |-> mstack, l |-> loads, g |-> gen, n |-> nreq, e |-> cal.ev,
+        ne |-> cal.nev (* round 3 *)]
 
 \* what a failed call may not change when it is repeated (load counters are
 \* the harness's instrumentation, not interpreter state)
@@ -195,7 +269,8 @@ Finish(e, c, out, startKey, re) ==
    through.                                                                  *)
 NoInterp == ""
 NI == Cardinality(Interps)
-CalInit == [ev |-> FALSE, par |-> NoInterp, bpar |-> [i \in Interps |-> NoInterp]]
+CalInit == [ev |-> FALSE, par |-> NoInterp, bpar |-> [i \in Interps |-> NoInterp],
+            nev |-> FALSE, npar |-> NoInterp (* round 3: the chain outer <- inner <- leaf *)]
 
 RECURSIVE BaseChainF(_, _, _), RootOfF(_, _, _), VisOf(_)
 \* the sessions above the base of i; fuel bounds a walk that never ends
@@ -221,38 +296,49 @@ EnvOps == {"envcall", "envfail", "envread"}
 EnvRoot(c) ==
   CASE c.id = "fresh" -> NoInterp
     [] c.id = "kept"  -> IF cal.par = NoInterp THEN NoInterp ELSE RootOfF(cal.bpar, cal.par, NI)
+    [] c.id \in NestIds (* round 3: the root of that chain is outer *) ->
+                         IF cal.npar = NoInterp THEN NoInterp ELSE RootOfF(cal.bpar, cal.npar, NI)
     [] OTHER (* child of the session of c.i *) -> RootOfF(cal.bpar, c.i, NI)
 
 \* where things hang while the script runs
 Attached(c) ==
   LET r == EnvRoot(c) IN
   IF r = "?" THEN cal
-  ELSE IF r = NoInterp THEN (IF c.id = "kept" THEN [cal EXCEPT !.par = c.i] ELSE cal)
+  ELSE IF r = NoInterp THEN (IF c.id = "kept" THEN [cal EXCEPT !.par = c.i]
+                             ELSE IF c.id \in NestIds THEN [cal EXCEPT !.npar = c.i] ELSE cal)
   ELSE IF DetachCallerEnv /\ r = c.i THEN cal
   ELSE [cal EXCEPT !.bpar[r] = c.i]
 
 \* the sessions the script's lookups pass through, and whether they can end
 EnvChain(c) ==
   LET a == Attached(c)
-      first == IF c.id = "kept" THEN a.par ELSE c.i
+      first == IF c.id = "kept" THEN a.par ELSE IF c.id \in NestIds THEN a.npar ELSE c.i
   IN [ch |-> <<first>> \o BaseChainF(a.bpar, first, NI),
       cyc |-> Len(BaseChainF(a.bpar, first, NI)) = NI]
 
 EnvDefines(c) == c.op \in {"envcall", "envfail"} /\ c.id = "kept"
+NestDefines(c) == c.op \in {"envcall", "envfail"} /\ c.id = "nested"      \* round 3
+\* round 3: the names the scopes of the caller's own chain hold (they shadow
+\* the session's): ev once a script has defined it there, the host's ov in outer
+OwnVis(c) ==
+  CASE c.id = "kept"  -> IF cal.ev THEN ("ev" :> IntV(4)) ELSE NoBind
+    [] c.id = "outer" -> ("ov" :> IntV(5))
+    [] c.id \in {"nested", "deep"} ->
+         (IF cal.nev \/ NestDefines(c) THEN ("ev" :> IntV(4)) ELSE NoBind) @@ ("ov" :> IntV(5))
+    [] OTHER -> NoBind
 CalNext(c) ==
   IF EnvRoot(c) = "?" THEN cal                    \* the walk to the root never returns
   ELSE LET a == IF DetachCallerEnv THEN cal ELSE Attached(c)   \* repaired: detached again
-       IN [a EXCEPT !.ev = @ \/ EnvDefines(c)]
+       IN [a EXCEPT !.ev = @ \/ EnvDefines(c), !.nev = @ \/ NestDefines(c)]
 
 EnvOutcome(c) ==
   LET ec  == EnvChain(c)
       vis == VisOf(ec.ch)
       undef(n) == IF ec.cyc THEN Host("RecursionError") ELSE Err("undef", n)
   IN IF EnvRoot(c) = "?" THEN Hang
-     ELSE CASE c.op = "envcall" -> IF c.n \in DOMAIN vis THEN Val(vis[c.n].k, vis[c.n].v) ELSE undef(c.n)
-            [] c.op = "envfail" -> Err("boom", "")
-            [] OTHER (* envread: the kept environment's own scope first *) ->
-                 IF cal.ev THEN Val("int", 4)
+     ELSE CASE c.op = "envfail" -> Err("boom", "")
+            [] OTHER (* envcall, envread: the caller's own scopes first (round 3: OwnVis) *) ->
+                 IF c.n \in DOMAIN OwnVis(c) THEN Val(OwnVis(c)[c.n].k, OwnVis(c)[c.n].v)
                  ELSE IF c.n \in DOMAIN vis THEN Val(vis[c.n].k, vis[c.n].v) ELSE undef(c.n)
 
 -----------------------------------------------------------------------------
@@ -269,7 +355,9 @@ BumpOk(c) == /\ Has(c, c.n)
              /\ \/ S(c)[c.n].k = "mod"
                 \/ S(c)[c.n].k = "sym" /\ S(c)[c.n].n = NBump(S(c)[c.n].id)
 
+FailDefOps == {"defbad", "assignbad", "destrbad", "classbad"}     \* round 3
 AtomicOps == {"def", "assign", "read", "deffn", "call", "failexpr", "syntax", "loop", "bump"} \cup EnvOps
+             \cup FailDefOps \cup {"defclass", "new"}
 
 NewScope(c) ==
   CASE c.op = "def"      -> (c.n :> IntV(c.v)) @@ S(c)
@@ -278,6 +366,14 @@ NewScope(c) ==
     [] c.op = "failexpr" -> (c.n :> IntV(c.v)) @@ S(c)          \* def y = 1; error 'boom'; def z = 1
     [] c.op = "loop"     -> (c.n :> IntV(1)) @@ ("i" :> IntV(2)) @@ S(c)
                             \* for i in [1,2,3] do if i == 2 then error 'boom'; def lv = i; end
+    \* round 3: def class P do def P_m = 1; def P_get(self) self->P_m end  (the
+    \* pinned NodeClass evaluates the member definitions in the enclosing scope,
+    \* so they are bound there too; like the loop variable the harness does not
+    \* judge these two names); a new interpreter; the failing definers fall
+    \* under OTHER: they change nothing
+    [] c.op = "defclass" -> (c.n :> ObjV(c.v)) @@ ((c.n \o "_m") :> IntV(c.v))
+                            @@ ((c.n \o "_get") :> FnV(c.n \o "_get")) @@ S(c)
+    [] c.op = "new"      -> ("secret" :> IntV(1))
     [] OTHER             -> S(c)
 
 Outcome(c) ==
@@ -292,12 +388,20 @@ Outcome(c) ==
     [] c.op = "syntax"   -> SynErr                          \* def z = 1; def w = (
     [] c.op = "loop"     -> Err("boom", "")
     [] c.op \in EnvOps   -> EnvOutcome(c)
+    \* round 3:  def x = 2 * nosuch  /  x = 2 * nosuch  /  def [x, w] = [5, nosuch]
+    \*           def class P do def P_m = 2 * nosuch; def P_get(self) 0 end
+    \* (an assignment looks its variable up before it evaluates the right-hand side)
+    [] c.op = "assignbad" /\ ~Has(c, c.n) -> Err("unassigned", c.n)
+    [] c.op \in FailDefOps -> Err("undef", "nosuch")
+    [] c.op = "defclass" -> Val("obj", c.v)
+    [] c.op = "new"      -> Val("int", 1)           \* (the set-up call def secret = 1)
     [] OTHER (* bump *)  -> IF ~Has(c, c.n) THEN Err("undef", c.n)
                             ELSE Val("int", mods[c.i][BumpTarget(c)].ctr + 1)
 
 Atomic(c, e) ==
   /\ c.op \in AtomicOps
   /\ CanStart(c)
+  /\ Born(c.i) = (c.op # "new")                   \* round 3
   /\ c.op = "bump" => /\ (Has(c, c.n) \/ c.v = 0)
                       /\ Has(c, c.n) => (BumpOk(c) /\ mods[c.i][BumpTarget(c)].ctr < MaxCtr)
   /\ sess' = [sess EXCEPT ![c.i] = NewScope(c)]
@@ -320,6 +424,7 @@ ImporterScope == IF Depth = 1 THEN sess[I] ELSE ctl.act[Depth - 1].env
 ReqStart(c) ==
   /\ c.op = "require"
   /\ CanStart(c)
+  /\ Born(c.i)                                    \* round 3
   /\ ctl' = [Idle EXCEPT !.ph = IF ctl.ph = "failed" THEN "rerun" ELSE "run",
                          !.cmd = c, !.start = Key, !.act = <<Act(c.id, c.form)>>,
                          !.first = ctl.first, !.snap = ctl.snap]
@@ -340,8 +445,10 @@ ReqPush ==
 ReqLookup ==
   /\ Stepping("lookup")
   /\ ctl' = IF Top.id \in DOMAIN mods[I] THEN SetTop([Top EXCEPT !.ph = "pop"])
-            ELSE IF Top.id \notin DOMAIN FS THEN [ctl EXCEPT !.err = Err("notfound", Top.id)]
-            ELSE IF FS[Top.id].syn THEN [ctl EXCEPT !.err = SynErr]
+            ELSE IF Top.id \notin DOMAIN FSI(I) THEN [ctl EXCEPT !.err = Err("notfound", Top.id)]
+            ELSE IF Top.id \in DOMAIN Unreadable        \* round 3: the host cannot read it
+                 THEN [ctl EXCEPT !.err = Fail("unreadable", Top.id)]
+            ELSE IF FSI(I)[Top.id].syn THEN [ctl EXCEPT !.err = SynErr]
             ELSE SetTop([Top EXCEPT !.ph = "load", !.pc = 0, !.env = NoBind])
   /\ UNCHANGED <<sess, mods, mstack, loads, gen, nreq, fs, cal>>
 
@@ -351,7 +458,7 @@ Target(env, st) == env[BindName(st.form, st.id)].id
 ReqLoadStep ==
   /\ Stepping("load")
   /\ LET a == Top
-         body == FS[a.id].body
+         body == FSI(I)[a.id].body
      IN IF a.pc = 0
         THEN /\ loads' = [loads EXCEPT ![I] =
                    (a.id :> Min(LoadCap, (IF a.id \in DOMAIN @ THEN @[a.id] ELSE 0) + 1)) @@ @]
@@ -363,7 +470,7 @@ ReqLoadStep ==
         THEN /\ ctl' = SetTop([a EXCEPT !.ph = "register"])
              /\ UNCHANGED <<loads, mods>>
         ELSE LET st == body[a.pc] IN
-             CASE st.op \in {"def", "rdr"} ->
+             CASE st.op \in {"def", "rdr", "def8"} ->
                     /\ ctl' = SetTop([a EXCEPT !.pc = @ + 1,
                                                !.env = (st.n :> SymV(a.id, st.n)) @@ @])
                     /\ UNCHANGED <<loads, mods>>
@@ -375,6 +482,12 @@ ReqLoadStep ==
                     /\ mods' = [mods EXCEPT ![I][Target(a.env, st)].ctr = @ + 1]
                     /\ ctl' = SetTop([a EXCEPT !.pc = @ + 1])
                     /\ UNCHANGED loads
+               [] st.op = "deep" ->        \* round 3: the host's stack is exhausted
+                    /\ ctl' = [ctl EXCEPT !.err = Fail("toodeep", "")]
+                    /\ UNCHANGED <<loads, mods>>
+               [] st.op = "spin" ->        \* round 3: does not end; the user interrupts it
+                    /\ ctl' = [ctl EXCEPT !.err = Fail("interrupted", "")]
+                    /\ UNCHANGED <<loads, mods>>
                [] OTHER (* fail *) ->
                     /\ ctl' = [ctl EXCEPT !.err = Err("boom", "")]
                     /\ UNCHANGED <<loads, mods>>
@@ -396,7 +509,7 @@ ReqPop ==
 
 \* the three binding forms and the underscore filter (nodes.py:1778-1800):
 \* iterate the module's local symbols, skip private ones, put into the importer
-Underscore(n) == IsPrivate(FS, n)
+Underscore(n) == IsPrivate(FSI(I), n)
 \* (d = the module's identity, nm = its name as spelled in the statement; an
 \* import list binds every pair it lists, the empty list binds nothing)
 Bindings(form, d, nm, mv) ==
@@ -422,7 +535,7 @@ ReqBind(e) ==
 \* an error leaves the activation; the pinned code leaves the id on the stack
 ReqUnwind ==
   /\ Running /\ ctl.err.cls # "" /\ Depth > 0
-  /\ mstack' = IF UnwindOnFailure /\ Top.pushed
+  /\ mstack' = IF UnwindsFor(ctl.err) /\ Top.pushed
                THEN [mstack EXCEPT ![I] = SubSeq(@, 1, Len(@) - 1)] ELSE mstack
   /\ ctl' = [ctl EXCEPT !.act = SubSeq(@, 1, Depth - 1)]
   /\ UNCHANGED <<sess, mods, loads, gen, nreq, fs, cal>>
@@ -471,18 +584,23 @@ GenDone(e) ==
   /\ Emit(e, "FSDEF", FsRec(fs'))
 
 ASSUME Mode = "c10" => Emit(TRUE, "FSDEF", [g |-> << >>,
-          fs |-> [m \in DOMAIN FS10 |-> [syn |-> FS10[m].syn, body |-> FS10[m].body]]])
+          fs |-> [m \in DOMAIN C10Files |-> [syn |-> C10Files[m].syn, body |-> C10Files[m].body]]])
+\* round 3: which files cannot be read (and how), and the directories of the
+\* interpreters that have one of their own
+ASSUME Mode = "c10" => Emit(TRUE, "FSRAW", [raw |-> Unreadable,
+          alt |-> [i \in DOMAIN AltFS |-> [m \in DOMAIN AltFS[i] |->
+                     [syn |-> AltFS[i][m].syn, body |-> AltFS[i][m].body]]]])
 
 -----------------------------------------------------------------------------
 Init ==
-  /\ sess   = [i \in Interps |-> ("secret" :> IntV(1))]
+  /\ sess   = [i \in Interps |-> IF i \in LateBorn THEN NoBind (* round 3 *) ELSE ("secret" :> IntV(1))]
   /\ mods   = [i \in Interps |-> [x \in Preloaded |-> [vars |-> NoBind, ctr |-> 0]]]
   /\ mstack = [i \in Interps |-> << >>]
   /\ loads  = [i \in Interps |-> [x \in Preloaded |-> 1]]
   /\ ctl    = IF Mode = "c10" THEN Idle ELSE [Idle EXCEPT !.ph = "gen"]
   /\ gen    = << >>
   /\ nreq   = 0
-  /\ fs     = (IF Mode = "c10" THEN FS10 ELSE FSOf(<< >>, ModIds)) @@ BundledFS
+  /\ fs     = (IF Mode = "c10" THEN C10Files ELSE FSOf(<< >>, ModIds)) @@ BundledFS
   /\ cal    = CalInit
 
 NextE(e) ==
@@ -502,19 +620,21 @@ Spec == Init /\ [][Next]_vars /\ WF_vars(Internal(FALSE))
    not called by the observer; mod: a module object with members mem.       *)
 Ctr(i, m) == mods[i][m].ctr
 RenderSym(i, x) ==
-  LET kd == SymKind(FS, x.id, x.n) IN
+  LET kd == SymKind(FSI(i), x.id, x.n) IN
   CASE kd = "get"  -> [k |-> "call", r |-> Ctr(i, x.id)]
     [] kd = "sees" -> [k |-> "call", r |-> 0]
     [] kd = "bump" -> [k |-> "fn",   r |-> 0]
     [] kd = "st"   -> [k |-> "list", r |-> Ctr(i, x.id)]
     [] kd = "def"  -> [k |-> "int",  r |-> 7]
+    [] kd = "def8" -> [k |-> "int",  r |-> 8]          \* round 3
     [] OTHER (* rdr *) ->
-         LET st == FS[x.id].body[SymStmt(FS, x.id, x.n)]
+         LET st == FSI(i)[x.id].body[SymStmt(FSI(i), x.id, x.n)]
          IN [k |-> "call", r |-> Ctr(i, Target(mods[i][x.id].vars, st))]
 Render(i, x) ==
   CASE x.k = "int" -> [k |-> "int", r |-> x.v]
     [] x.k = "fn"  -> [k |-> "fn",  r |-> 0]
     [] x.k = "sym" -> RenderSym(i, x)
+    [] x.k = "obj" -> [k |-> "obj", r |-> x.v]         \* round 3
     [] OTHER       -> [k |-> "mod", r |-> 0]
 NoMem == [x \in {} |-> [k |-> "", r |-> 0]]
 Obs(i) ==
@@ -522,7 +642,7 @@ Obs(i) ==
      [v |-> Render(i, sess[i][n]),
       mem |-> IF sess[i][n].k = "mod"
               THEN LET mv == mods[i][sess[i][n].id].vars
-                   IN [x \in Exposed(FS, mv) |-> Render(i, mv[x])]
+                   IN [x \in Exposed(FSI(i), mv) |-> Render(i, mv[x])]
               ELSE NoMem,
       \* which module instance a module object shows (names with the same `of`
       \* must show the very same members) and whether mem lists them all
@@ -544,6 +664,7 @@ StackEmptyBetweenCalls == AtRest => \A i \in Interps : mstack[i] = << >>
 \* runs, whether the script fails or not; so every interpreter resolves names
 \* through its own session only, and the walk up its chain ends
 CallerEnvDetached == AtRest => (cal.par = NoInterp /\ \A i \in Interps : cal.bpar[i] = NoInterp)
+                               /\ (AtRest => cal.npar = NoInterp)        \* round 3
 SessionsIsolated  == \A i \in Interps : SessChain(i) = <<i>>
 
 \* C10: a failed command, repeated at once, fails the same way ...
@@ -558,11 +679,12 @@ FailLeavesNoResidue == ctl.ph = "done" => ctl.snap = Snap
 \* C10: names never disappear; a binding changes only by a command that defines
 \* or assigns that very name (or binds it through require)
 Rebinder(j, n) ==
-  \/ \E c \in CmdsOf(j) : /\ c.op \in {"def", "assign", "deffn", "failexpr", "loop"}
-                          /\ (c.n = n \/ (c.op = "loop" /\ n = "i"))
+  \/ \E c \in CmdsOf(j) : /\ c.op \in {"def", "assign", "deffn", "failexpr", "loop", "defclass"}
+                          /\ (c.n = n \/ (c.op = "loop" /\ n = "i")
+                                      \/ (c.op = "defclass" /\ n \in {c.n \o "_m", c.n \o "_get"}))
                           /\ Atomic(c, FALSE)
   \/ /\ Stepping("bind") /\ I = j /\ Depth = 1
-     /\ n \in Denotes(FS, Top.form, Top.nm, mods[j][Top.id].vars)
+     /\ n \in Denotes(FSI(j), Top.form, Top.nm, mods[j][Top.id].vars)
 DefsPersist ==
   [][\A j \in Interps : \A n \in DOMAIN sess[j] :
         /\ n \in DOMAIN sess'[j]
@@ -590,18 +712,35 @@ BindsExactlyAct ==
         mv == mods[I][d].vars
         before == ImporterScope
         after == IF Depth = 1 THEN sess'[I] ELSE ctl'.act[Depth - 1].env
-        den == Denotes(FS, f, Top.nm, mv)
+        den == Denotes(FSI(I), f, Top.nm, mv)
         changed == {n \in DOMAIN after : n \notin DOMAIN before \/ after[n] # before[n]}
     IN /\ DOMAIN after = DOMAIN before \cup den
        /\ changed \subseteq den
-       /\ \A n \in den : ~IsPrivate(FS, n) /\ after[n] = BoundValue(FS, f, d, mv, n)
-       /\ \A n \in Exposed(FS, mv) : ~IsPrivate(FS, n)
+       /\ \A n \in den : ~IsPrivate(FSI(I), n) /\ after[n] = BoundValue(FSI(I), f, d, mv, n)
+       /\ \A n \in Exposed(FSI(I), mv) : ~IsPrivate(FSI(I), n)
 BindsExactly == [][BindsExactlyAct]_vars
 
 \* C11: module code saw nothing of the importer
 ModuleScopeIsBase ==
   \A i \in Interps : /\ "secret" \in DOMAIN sess[i]
                      /\ \A m \in DOMAIN mods[i] \ Bundled : mods[i][m].vars[NTop(m)] = IntV(0)
+
+\* round 3: the same for configurations in which interpreters are made later
+ModuleScopeIsBaseBorn ==
+  \A i \in Interps : /\ Born(i) \/ (sess[i] = NoBind /\ mstack[i] = << >>)
+                     /\ \A m \in DOMAIN mods[i] \ Bundled : mods[i][m].vars[NTop(m)] = IntV(0)
+\* round 3 (C10): a defining statement that fails defines nothing and leaves
+\* the earlier definition of the name as it was
+FailedDefinerDefinesNothing ==
+  [][\A c \in Cmds : (c.op \in FailDefOps /\ Atomic(c, FALSE)) => sess' = sess]_vars
+\* round 3 (C10): a module comes from the directory of the interpreter that
+\* requires it: what the cache of i holds was defined by a file of FSI(i)
+ModulesFromOwnDirectory ==
+  \A i \in Interps : \A m \in DOMAIN mods[i] \ Bundled :
+     /\ m \in DOMAIN FSI(i)
+     /\ \A n \in DOMAIN mods[i][m].vars :
+          (mods[i][m].vars[n].k = "sym" /\ mods[i][m].vars[n].id = m /\ n \notin DOMAIN StdEnv(m, NoBind))
+             => \E k \in DOMAIN FSI(i)[m].body : FSI(i)[m].body[k].n = n
 
 \* C11: every module value refers to the one cached instance
 Refs(sc) == {sc[n].id : n \in {x \in DOMAIN sc : sc[x].k \in {"mod", "sym"}}}
